@@ -41,7 +41,7 @@ const (
 	vfC20Clear
 	vfC20ReadState
 	vfC20ReadStream
-	vfC20Stats
+	vfC20OpStats
 	vfC20Advance
 )
 
@@ -127,7 +127,7 @@ func vfC20GenOp(rt *rapid.T, nCh, nKeys int) vfC20Op {
 	op.Kind = rapid.SampledFrom([]int{
 		vfC20Publish, vfC20Publish, vfC20Publish, vfC20Publish, vfC20Publish, vfC20Publish, vfC20Publish,
 		vfC20Remove, vfC20Remove, vfC20ReadState, vfC20ReadState, vfC20ReadStream, vfC20ReadStream,
-		vfC20Advance, vfC20Advance, vfC20Stats, vfC20Clear,
+		vfC20Advance, vfC20Advance, vfC20OpStats, vfC20Clear,
 	}).Draw(rt, "kind")
 	if op.Kind == vfC20Clear && rapid.IntRange(0, 2).Draw(rt, "clearKeep") != 0 {
 		op.Kind = vfC20Publish // clears are kept rare
@@ -214,7 +214,7 @@ func (op vfC20Op) String() string {
 		return fmt.Sprintf("state(c%d,limit=%d,asc=%v,rev%d)", op.Ch, op.Limit, op.Asc, op.Rev)
 	case vfC20ReadStream:
 		return fmt.Sprintf("stream(c%d,since%d/e%d,limit=%d,rev=%v)", op.Ch, op.Since, op.SinceEpoch, op.Limit, op.Reverse)
-	case vfC20Stats:
+	case vfC20OpStats:
 		return fmt.Sprintf("stats(c%d)", op.Ch)
 	case vfC20Advance:
 		return fmt.Sprintf("advance(%s)", op.D)
@@ -631,4 +631,702 @@ func vfC20StreamMatch(p *Publication, e vfC20SE) string {
 			p.Offset, p.Key, p.Removed, p.Data, p.Tags, e.Offset, e.Key, e.Removed, e.Data, e.Tags)
 	}
 	return ""
+}
+
+// ---------------------------------------------------------------------------------------------------------------
+// executor
+
+type vfC20Tally struct {
+	reasons     map[string]int
+	unsupp      int
+	errs        int
+	expiries    int
+	streamClear int
+	metaDrops   int
+	clears      int
+	nontrivial  bool
+	afterReset  bool
+	trimmed     bool
+}
+
+type vfC20Peek struct {
+	exists bool
+	offs   []uint64
+	state  map[string][3]int64 // offset, expireAt, version
+	data   map[string]string
+}
+
+func vfC20PeekChan(b *MemoryMapBroker, name string) vfC20Peek {
+	h := b.mapHub
+	h.RLock()
+	defer h.RUnlock()
+	p := vfC20Peek{state: map[string][3]int64{}, data: map[string]string{}}
+	chn, ok := h.channels[name]
+	if !ok {
+		return p
+	}
+	p.exists = true
+	if chn.stream != nil {
+		items, _, _ := chn.stream.Get(0, false, -1, false)
+		for _, it := range items {
+			p.offs = append(p.offs, it.Offset)
+		}
+	}
+	for k, e := range chn.state {
+		p.state[k] = [3]int64{int64(e.Publication.Offset), e.ExpireAt, int64(e.Version)}
+		p.data[k] = string(e.Publication.Data)
+	}
+	return p
+}
+
+// compare the peeked implementation state with the reference (no tolerance: called when no sweep can be pending).
+func (c *vfC20Chan) comparePeek(p vfC20Peek) string {
+	if !c.exists {
+		if p.exists {
+			return "channel exists in the broker but not in the reference"
+		}
+		return ""
+	}
+	if !p.exists {
+		return "channel vanished from the broker"
+	}
+	if len(p.offs) != len(c.stream) {
+		return fmt.Sprintf("retained stream offsets %v, reference %v", p.offs, vfC20Offs(c.stream))
+	}
+	for i := range p.offs {
+		if p.offs[i] != c.stream[i].Offset {
+			return fmt.Sprintf("retained stream offsets %v, reference %v", p.offs, vfC20Offs(c.stream))
+		}
+	}
+	if len(p.state) != len(c.state) {
+		return fmt.Sprintf("state has %d keys, reference %d", len(p.state), len(c.state))
+	}
+	for k, e := range c.state {
+		q, ok := p.state[k]
+		if !ok {
+			return fmt.Sprintf("key %s missing from state", k)
+		}
+		if uint64(q[0]) != e.Offset || p.data[k] != e.Data {
+			return fmt.Sprintf("key %s holds {off=%d data=%q}, reference {off=%d data=%q}", k, q[0], p.data[k], e.Offset, e.Data)
+		}
+		if q[1] != e.ExpireAt {
+			return fmt.Sprintf("key %s expiry deadline %d, reference %d", k, q[1], e.ExpireAt)
+		}
+		if uint64(q[2]) != e.Version {
+			return fmt.Sprintf("key %s stored version %d, reference %d", k, uint64(q[2]), e.Version)
+		}
+	}
+	return ""
+}
+
+func vfC20Offs(s []vfC20SE) []uint64 {
+	out := make([]uint64, len(s))
+	for i, e := range s {
+		out[i] = e.Offset
+	}
+	return out
+}
+
+func vfC20Sub(a uint64, b uint64) uint64 {
+	if a < b {
+		return 0
+	}
+	return a - b
+}
+
+func vfC20Run(node *Node, cfgs []vfC20Cfg, nKeys int, ops []vfC20Op, st *vfC20Tally) string {
+	ctx := context.Background()
+	optsMap := map[string]MapChannelOptions{}
+	var chans []*vfC20Chan
+	for i, cfg := range cfgs {
+		name := fmt.Sprintf("vc%d", i)
+		optsMap[name] = MapChannelOptions{Mode: cfg.Mode, KeyTTL: cfg.KeyTTL, StreamSize: cfg.StreamSize, StreamTTL: cfg.StreamTTL,
+			MetaTTL: cfg.MetaTTL, ordered: cfg.Ordered}
+		if _, err := ResolveAndValidateMapChannelOptions(func(string) MapChannelOptions { return optsMap[name] }, name); err != nil {
+			return "INFRA: generated channel options rejected: " + err.Error()
+		}
+		chans = append(chans, &vfC20Chan{name: name, cfg: vfC20Resolve(cfg), state: map[string]*vfC20Entry{}, idem: map[string]vfC20Idem{}})
+	}
+	vfC20Opts.Store(&optsMap)
+	broker, err := NewMemoryMapBroker(node, MemoryMapBrokerConfig{})
+	if err != nil {
+		return "INFRA: broker: " + err.Error()
+	}
+	rec := &vfC20Rec{}
+	if err := broker.RegisterEventHandler(rec); err != nil {
+		return "INFRA: register: " + err.Error()
+	}
+	defer func() { _ = broker.Close(ctx) }()
+
+	seen := 0
+	type kk struct {
+		ch  int
+		key int
+	}
+	supp, unsupp := map[kk]bool{}, map[kk]bool{}
+
+	checkUpdate := func(m *vfC20Chan, op vfC20Op, x vfC20Expect, save bool, res MapUpdateResult, err error, now int64) string {
+		newD := rec.take(seen)
+		seen += len(newD)
+		if x.Err {
+			st.errs++
+			if err == nil {
+				return fmt.Sprintf("expected an error (ephemeral channel with CAS/version), got result %+v", res)
+			}
+			if len(newD) != 0 {
+				return "rejected operation was broadcast"
+			}
+			return ""
+		}
+		if err != nil {
+			return "unexpected error: " + err.Error()
+		}
+		if res.Suppressed != x.Suppressed || res.SuppressReason != x.Reason {
+			return fmt.Sprintf("result suppressed=%v reason=%q, reference suppressed=%v reason=%q", res.Suppressed, res.SuppressReason, x.Suppressed, x.Reason)
+		}
+		switch {
+		case x.PosExact != nil:
+			if res.Position != *x.PosExact {
+				return fmt.Sprintf("idempotent repeat returned position %+v, first result was %+v", res.Position, *x.PosExact)
+			}
+		case x.ZeroPosOK:
+			if res.Position.Epoch == "" {
+				if res.Position.Offset != 0 {
+					return fmt.Sprintf("position %+v for an unknown channel", res.Position)
+				}
+			} else {
+				m.create()
+				if res.Position.Offset != 0 {
+					return fmt.Sprintf("position %+v for an unknown channel", res.Position)
+				}
+				if v := m.observe(res.Position.Epoch); v != "" {
+					return v
+				}
+			}
+		default:
+			if res.Position.Offset != x.Offset {
+				return fmt.Sprintf("result offset %d, reference %d", res.Position.Offset, x.Offset)
+			}
+			if v := m.observe(res.Position.Epoch); v != "" {
+				return v
+			}
+		}
+		if x.Current != nil {
+			if res.CurrentEntry == nil {
+				return "position mismatch on an existing key without CurrentEntry"
+			}
+			if res.CurrentEntry.Offset != x.Current.Offset || string(res.CurrentEntry.Data) != string(x.Current.Data) {
+				return fmt.Sprintf("CurrentEntry {off=%d data=%q}, reference {off=%d data=%q}", res.CurrentEntry.Offset, res.CurrentEntry.Data, x.Current.Offset, x.Current.Data)
+			}
+		} else if res.CurrentEntry != nil {
+			return fmt.Sprintf("unexpected CurrentEntry %+v (reason %q)", *res.CurrentEntry, res.SuppressReason)
+		}
+		k := kk{op.Ch, op.Key}
+		if x.Suppressed {
+			st.reasons[string(x.Reason)]++
+			supp[k] = true
+			if len(newD) != 0 {
+				return fmt.Sprintf("suppressed operation (%s) was broadcast %d time(s)", x.Reason, len(newD))
+			}
+		} else {
+			st.unsupp++
+			unsupp[k] = true
+			if len(newD) != 1 {
+				return fmt.Sprintf("unsuppressed operation was broadcast %d times", len(newD))
+			}
+			d := newD[0]
+			if d.Ch != m.name {
+				return fmt.Sprintf("broadcast on channel %q, want %q", d.Ch, m.name)
+			}
+			if d.SP != res.Position {
+				return fmt.Sprintf("broadcast position %+v differs from result position %+v", d.SP, res.Position)
+			}
+			if d.Pub.Offset != x.Offset || d.Pub.Key != x.DKey || string(d.Pub.Data) != x.DData || d.Pub.Removed != x.DRemoved ||
+				!vfC20TagsEq(d.Pub.Tags, x.DTags) || (d.Pub.Info != nil) != x.DInfo || (!x.DRemoved && d.Pub.Score != x.DScore) {
+				return fmt.Sprintf("broadcast publication {off=%d key=%s data=%q removed=%v tags=%v score=%d info=%v}, reference {off=%d key=%s data=%q removed=%v tags=%v score=%d info=%v}",
+					d.Pub.Offset, d.Pub.Key, d.Pub.Data, d.Pub.Removed, d.Pub.Tags, d.Pub.Score, d.Pub.Info != nil,
+					x.Offset, x.DKey, x.DData, x.DRemoved, x.DTags, x.DScore, x.DInfo)
+			}
+			if d.Pub.Time != now {
+				return fmt.Sprintf("broadcast publication time %d, now %d", d.Pub.Time, now)
+			}
+			if d.Delta != x.DDelta {
+				return fmt.Sprintf("broadcast delta flag %v, want %v", d.Delta, x.DDelta)
+			}
+			if x.DPrev == nil && d.Prev != nil {
+				return "broadcast carries a previous publication although none is expected"
+			}
+			if x.DPrev != nil && (d.Prev == nil || string(d.Prev.Data) != *x.DPrev) {
+				return fmt.Sprintf("broadcast previous publication %v, want data %q", d.Prev, *x.DPrev)
+			}
+		}
+		if m.wasReset {
+			st.afterReset = true
+		}
+		if save {
+			m.idem[op.Idem] = vfC20Idem{Pos: StreamPosition{Offset: x.Offset, Epoch: m.epoch}, Exp: now + vfC20IdemTTLms(op.IdemTTL)}
+		}
+		return ""
+	}
+
+	staleEpoch := func(m *vfC20Chan) string {
+		if len(m.pastEpochs) > 0 {
+			return m.pastEpochs[len(m.pastEpochs)-1]
+		}
+		return "zzzzzzzz"
+	}
+
+	readState := func(m *vfC20Chan, op vfC20Op, key string, now int64) string {
+		o := MapReadStateOptions{Asc: op.Asc, Limit: op.Limit}
+		wantErr := false
+		switch op.Rev {
+		case 1:
+			if m.exists && m.epoch != "" {
+				o.Revision = &StreamPosition{Offset: m.top, Epoch: m.epoch}
+			}
+		case 2:
+			o.Revision = &StreamPosition{Offset: m.top, Epoch: staleEpoch(m)}
+			wantErr = true
+		}
+		if op.ByKey {
+			o.Key = key
+		}
+		m.create()
+		m.refreshMeta(now)
+		if wantErr {
+			_, err := broker.ReadState(ctx, m.name, o)
+			if !errors.Is(err, ErrorUnrecoverablePosition) {
+				return fmt.Sprintf("read with a stale revision epoch returned err=%v, want unrecoverable position", err)
+			}
+			return ""
+		}
+		var got []*Publication
+		calls := 0
+		for {
+			calls++
+			if calls > len(m.state)+2 {
+				return "state pagination does not terminate"
+			}
+			res, err := broker.ReadState(ctx, m.name, o)
+			if err != nil {
+				return "unexpected error: " + err.Error()
+			}
+			if res.Position.Offset != m.top {
+				return fmt.Sprintf("state position offset %d, reference %d", res.Position.Offset, m.top)
+			}
+			if v := m.observe(res.Position.Epoch); v != "" {
+				return v
+			}
+			got = append(got, res.Publications...)
+			if res.Cursor == "" {
+				break
+			}
+			if op.ByKey || op.Limit <= 0 {
+				return fmt.Sprintf("unexpected cursor %q", res.Cursor)
+			}
+			if len(res.Publications) == 0 || res.Cursor == o.Cursor {
+				return "state pagination makes no progress"
+			}
+			o.Cursor = res.Cursor
+		}
+		if op.ByKey {
+			e, ok := m.state[key]
+			if !ok {
+				if len(got) != 0 {
+					return fmt.Sprintf("single-key read of absent key %s returned %d entries", key, len(got))
+				}
+				return ""
+			}
+			if len(got) != 1 {
+				return fmt.Sprintf("single-key read of present key %s returned %d entries", key, len(got))
+			}
+			return vfC20StateMatch(got[0], e, m.cfg.Ordered)
+		}
+		if op.Limit == 0 {
+			if len(got) != 0 {
+				return "limit 0 returned entries"
+			}
+			return ""
+		}
+		want := m.sortedState(op.Asc)
+		if len(got) != len(want) {
+			return fmt.Sprintf("state read returned %d entries, reference has %d", len(got), len(want))
+		}
+		for i := range want {
+			if v := vfC20StateMatch(got[i], want[i], m.cfg.Ordered); v != "" {
+				return fmt.Sprintf("state position %d: %s", i, v)
+			}
+		}
+		return ""
+	}
+
+	readStream := func(m *vfC20Chan, op vfC20Op, now int64) string {
+		o := MapReadStreamOptions{Filter: StreamFilter{Limit: op.Limit, Reverse: op.Reverse}}
+		if op.Since != 0 {
+			var off uint64
+			switch op.Since {
+			case 1:
+				off = 0
+			case 2:
+				off = m.top
+			case 3:
+				off = vfC20Sub(m.top, 1)
+			case 4:
+				off = vfC20Sub(m.top, 2)
+			case 5:
+				off = m.top + 1
+			case 6:
+				off = m.top + 3
+			case 7:
+				off = 1
+			case 8:
+				off = 2
+			}
+			ep := ""
+			switch op.SinceEpoch {
+			case 1:
+				ep = m.epoch
+			case 2:
+				ep = staleEpoch(m)
+			}
+			o.Filter.Since = &StreamPosition{Offset: off, Epoch: ep}
+		}
+		existed := m.exists
+		m.create()
+		m.refreshMeta(now)
+		res, err := broker.ReadStream(ctx, m.name, o)
+		since := o.Filter.Since
+		if since != nil && since.Epoch != "" && since.Epoch != m.epoch {
+			if errors.Is(err, ErrorUnrecoverablePosition) {
+				return ""
+			}
+			if !existed && err == nil && len(res.Publications) == 0 {
+				// brand-new channel: nothing to compare the epoch with yet (allowed either way)
+				return m.observe(res.Position.Epoch)
+			}
+			return fmt.Sprintf("stream read since a foreign epoch returned err=%v (%d publications), want unrecoverable position", err, len(res.Publications))
+		}
+		if err != nil {
+			return "unexpected error: " + err.Error()
+		}
+		if res.Position.Offset != m.top {
+			return fmt.Sprintf("stream position offset %d, reference %d", res.Position.Offset, m.top)
+		}
+		if v := m.observe(res.Position.Epoch); v != "" {
+			return v
+		}
+		var want []vfC20SE
+		exact := true
+		lim := op.Limit
+		switch {
+		case lim == 0:
+		case since == nil && !op.Reverse:
+			want = append(want, m.stream...)
+		case since == nil && op.Reverse:
+			for i := len(m.stream) - 1; i >= 0; i-- {
+				want = append(want, m.stream[i])
+			}
+		case !op.Reverse:
+			for _, e := range m.stream {
+				if e.Offset > since.Offset {
+					want = append(want, e)
+				}
+			}
+		default: // reverse from a position: entries before it, newest first
+			if since.Offset == 0 {
+				break
+			}
+			start := since.Offset - 1
+			if start > m.top {
+				exact = false // reading backwards from beyond the top is not specified
+				break
+			}
+			for i := len(m.stream) - 1; i >= 0; i-- {
+				if m.stream[i].Offset <= start {
+					want = append(want, m.stream[i])
+				}
+			}
+			if len(want) > 0 && want[0].Offset != start {
+				want = nil
+			}
+		}
+		if lim > 0 && len(want) > lim {
+			want = want[:lim]
+		}
+		if !exact {
+			for _, p := range res.Publications {
+				found := false
+				for _, e := range m.stream {
+					if p != nil && e.Offset == p.Offset && vfC20StreamMatch(p, e) == "" {
+						found = true
+					}
+				}
+				if !found {
+					return "stream read returned an entry that was never appended"
+				}
+			}
+			return ""
+		}
+		if len(res.Publications) != len(want) {
+			var offs []uint64
+			for _, p := range res.Publications {
+				offs = append(offs, p.Offset)
+			}
+			return fmt.Sprintf("stream read returned offsets %v, reference %v (retained %v)", offs, vfC20Offs(want), vfC20Offs(m.stream))
+		}
+		for i := range want {
+			if v := vfC20StreamMatch(res.Publications[i], want[i]); v != "" {
+				return v
+			}
+		}
+		return ""
+	}
+
+	// reconcile resolves what the housekeeping sweeps did during an advance.
+	reconcile := func(now int64) string {
+		newD := rec.take(seen)
+		seen += len(newD)
+		byName := map[string]*vfC20Chan{}
+		for _, m := range chans {
+			byName[m.name] = m
+		}
+		for _, d := range newD {
+			m := byName[d.Ch]
+			if m == nil {
+				return "broadcast on an unknown channel " + d.Ch
+			}
+			if !d.Pub.Removed {
+				return fmt.Sprintf("spontaneous non-removal broadcast for key %s", d.Pub.Key)
+			}
+			e, ok := m.state[d.Pub.Key]
+			if !ok {
+				return fmt.Sprintf("expiry removal broadcast for key %s which is not in the state (removed twice?)", d.Pub.Key)
+			}
+			if e.ExpireAt == 0 || d.Pub.Time < e.ExpireAt {
+				return fmt.Sprintf("key %s expired at %d, before its deadline %d", d.Pub.Key, d.Pub.Time, e.ExpireAt)
+			}
+			var off uint64
+			if m.cfg.Mode.HasStream() {
+				off = m.top + 1
+			}
+			if d.SP.Offset != off || d.Pub.Offset != off || d.SP.Epoch != m.epoch {
+				return fmt.Sprintf("expiry removal of %s broadcast at %+v (pub offset %d), reference {%d %s}", d.Pub.Key, d.SP, d.Pub.Offset, off, m.epoch)
+			}
+			if !vfC20TagsEq(d.Pub.Tags, e.Tags) || d.Delta || d.Prev != nil || len(d.Pub.Data) != 0 {
+				return fmt.Sprintf("expiry removal of %s carries tags %v (stored %v), delta=%v", d.Pub.Key, d.Pub.Tags, e.Tags, d.Delta)
+			}
+			delete(m.state, d.Pub.Key)
+			if m.cfg.Mode.HasStream() {
+				m.top = off
+				m.appendStream(vfC20SE{Offset: off, Key: d.Pub.Key, Removed: true, Tags: e.Tags})
+			}
+			m.wasReset = true
+			st.expiries++
+		}
+		for _, m := range chans {
+			p := vfC20PeekChan(broker, m.name)
+			if m.exists && !p.exists {
+				if m.metaMayExpire == 0 || now < m.metaMayExpire {
+					return fmt.Sprintf("channel %s dropped at %d before its meta TTL deadline %d", m.name, now, m.metaMayExpire)
+				}
+				m.reset()
+				st.metaDrops++
+				continue
+			}
+			if m.exists && len(p.offs) < len(m.stream) {
+				// stream TTL sweep: a prefix of the retained entries is gone
+				if m.streamMayClear == 0 || now < m.streamMayClear {
+					return fmt.Sprintf("channel %s lost stream entries at %d before its stream TTL deadline %d (retained %v, reference %v)",
+						m.name, now, m.streamMayClear, p.offs, vfC20Offs(m.stream))
+				}
+				m.stream = m.stream[len(m.stream)-len(p.offs):]
+				st.streamClear++
+			}
+			for k, e := range m.state {
+				if e.ExpireAt != 0 && now >= e.ExpireAt+2000 {
+					return fmt.Sprintf("key %s of %s still present at %d, deadline was %d", k, m.name, now, e.ExpireAt)
+				}
+			}
+			if v := m.comparePeek(p); v != "" {
+				return fmt.Sprintf("channel %s after advance: %s", m.name, v)
+			}
+		}
+		return ""
+	}
+
+	for i, op := range ops {
+		m := chans[op.Ch]
+		key := fmt.Sprintf("k%d", op.Key)
+		now := time.Now().UnixMilli()
+		fail := func(v string) string { return fmt.Sprintf("step %d %s: %s", i, op, v) }
+		switch op.Kind {
+		case vfC20Publish:
+			cas := m.resolveCAS(op.CAS, key)
+			data := fmt.Sprintf("d%d", i)
+			po := MapPublishOptions{Data: []byte(data), Tags: vfC20CopyTags(op.Tags), KeyMode: op.KeyMode, Version: op.Version,
+				VersionEpoch: op.VEpoch, IdempotencyKey: op.Idem, IdempotentResultTTL: op.IdemTTL, RefreshTTLOnSuppress: op.Refresh,
+				score: op.Score, UseDelta: op.Delta}
+			if cas != nil {
+				cp := *cas
+				po.ExpectedPosition = &cp
+			}
+			if op.Info {
+				po.ClientInfo = &ClientInfo{ClientID: "cid", UserID: "uid"}
+			}
+			before := len(m.stream)
+			x, save := m.publish(op, key, data, cas, now)
+			if !x.Suppressed && !x.Err && m.cfg.Mode.HasStream() && before == m.cfg.StreamSize {
+				st.trimmed = true
+			}
+			res, err := broker.Publish(ctx, m.name, key, po)
+			if v := checkUpdate(m, op, x, save, res, err, now); v != "" {
+				return fail(v)
+			}
+		case vfC20Remove:
+			cas := m.resolveCAS(op.CAS, key)
+			ro := MapRemoveOptions{IdempotencyKey: op.Idem, IdempotentResultTTL: op.IdemTTL, Tags: vfC20CopyTags(op.Tags)}
+			if cas != nil {
+				cp := *cas
+				ro.ExpectedPosition = &cp
+			}
+			x, save := m.remove(op, key, cas, now)
+			res, err := broker.Remove(ctx, m.name, key, ro)
+			if v := checkUpdate(m, op, x, save, res, err, now); v != "" {
+				return fail(v)
+			}
+		case vfC20Clear:
+			if err := broker.Clear(ctx, m.name, MapClearOptions{}); err != nil {
+				return fail("clear: " + err.Error())
+			}
+			m.reset()
+			m.idem = map[string]vfC20Idem{}
+			st.clears++
+			if d := rec.take(seen); len(d) != 0 {
+				return fail("clear was broadcast")
+			}
+		case vfC20ReadState:
+			if v := readState(m, op, key, now); v != "" {
+				return fail(v)
+			}
+		case vfC20ReadStream:
+			if v := readStream(m, op, now); v != "" {
+				return fail(v)
+			}
+		case vfC20OpStats:
+			s, err := broker.Stats(ctx, m.name)
+			if err != nil {
+				return fail("stats: " + err.Error())
+			}
+			if s.NumKeys != len(m.state) {
+				return fail(fmt.Sprintf("NumKeys=%d, reference %d", s.NumKeys, len(m.state)))
+			}
+		case vfC20Advance:
+			time.Sleep(op.D)
+			vfSettle()
+			if v := reconcile(time.Now().UnixMilli()); v != "" {
+				return fail(v)
+			}
+			continue
+		}
+		if d := rec.take(seen); len(d) != 0 {
+			return fail(fmt.Sprintf("%d unexpected broadcast(s)", len(d)))
+		}
+		// no time has passed: the implementation must hold exactly the reference state
+		for _, mm := range chans {
+			if v := mm.comparePeek(vfC20PeekChan(broker, mm.name)); v != "" {
+				return fail(fmt.Sprintf("channel %s: %s", mm.name, v))
+			}
+		}
+	}
+	// final public-API observation of every channel
+	now := time.Now().UnixMilli()
+	for _, m := range chans {
+		if v := readState(m, vfC20Op{Kind: vfC20ReadState, Limit: -1}, "", now); v != "" {
+			return "final state read of " + m.name + ": " + v
+		}
+		if v := readStream(m, vfC20Op{Kind: vfC20ReadStream, Limit: -1}, now); v != "" {
+			return "final stream read of " + m.name + ": " + v
+		}
+	}
+	for k := range supp {
+		if unsupp[k] {
+			st.nontrivial = true
+		}
+	}
+	if st.afterReset {
+		st.nontrivial = true
+	}
+	return ""
+}
+
+func TestVF_C20(t *testing.T) {
+	vfCheck(t, "C20", func(rt *rapid.T, c *vfCase) string {
+		nCh := rapid.IntRange(1, 2).Draw(rt, "nch")
+		nKeys := rapid.IntRange(3, 4).Draw(rt, "nkeys")
+		var cfgs []vfC20Cfg
+		for i := 0; i < nCh; i++ {
+			cfgs = append(cfgs, vfC20GenCfg(rt, i))
+		}
+		nOps := rapid.IntRange(4, 40).Draw(rt, "nops")
+		ops := make([]vfC20Op, 0, nOps)
+		for i := 0; i < nOps; i++ {
+			ops = append(ops, vfC20GenOp(rt, nCh, nKeys))
+		}
+		var sb strings.Builder
+		for i, cfg := range cfgs {
+			fmt.Fprintf(&sb, "c%d{mode=%d ordered=%v keyTTL=%s size=%d streamTTL=%s metaTTL=%s} ", i, cfg.Mode, cfg.Ordered, cfg.KeyTTL, cfg.StreamSize, cfg.StreamTTL, cfg.MetaTTL)
+		}
+		sb.WriteString("ops=[")
+		for i, op := range ops {
+			if i > 0 {
+				sb.WriteByte(' ')
+			}
+			sb.WriteString(op.String())
+		}
+		sb.WriteString("]")
+		c.Describe(sb.String())
+
+		node, err := vfC20Node()
+		if err != nil {
+			rt.Fatalf("INFRA: node: %v", err)
+		}
+		st := &vfC20Tally{reasons: map[string]int{}}
+		verdict := vfBubble(t, func() string { return vfC20Run(node, cfgs, nKeys, ops, st) })
+		if strings.HasPrefix(verdict, "INFRA:") {
+			rt.Fatalf("%s", verdict)
+		}
+		for _, cfg := range cfgs {
+			c.Labelf("mode_%d", cfg.Mode)
+		}
+		for r, n := range st.reasons {
+			if n > 0 {
+				c.Label("suppressed_" + r)
+			}
+		}
+		if st.errs > 0 {
+			c.Label("ephemeral_reject")
+		}
+		if st.expiries > 0 {
+			c.Label("key_expired")
+		}
+		if st.streamClear > 0 {
+			c.Label("stream_ttl_cleared")
+		}
+		if st.metaDrops > 0 {
+			c.Label("meta_dropped")
+		}
+		if st.clears > 0 {
+			c.Label("cleared")
+		}
+		if st.trimmed {
+			c.Label("stream_trimmed")
+		}
+		if st.afterReset {
+			c.Label("op_after_reset_or_expiry")
+		}
+		if st.nontrivial {
+			c.Nontrivial(sb.String())
+		}
+		return verdict
+	})
 }
